@@ -172,7 +172,8 @@ def run(ctx):
     run_group.setarch = have_setarch()
     if not run_group.setarch:
         ctx.assume("setarch -R is not usable here: the ASLR-off layouts were skipped")
-    for fl in ("hooks", "asan"):
+    flavours = os.environ.get("VERIF_C01_FLAVOURS", "hooks,asan").split(",")     # development knob (scratch worktrees: hooks only)
+    for fl in flavours:
         build.harness("progvm.cpp", fl)
     scs = [("d:" + d["name"], d) for d in prog.directed()]
     for i in range(n):
@@ -181,6 +182,8 @@ def run(ctx):
     chunk = 6
     jobs = []
     for fl, sub in (("hooks", scs), ("asan", scs[:nasan])):
+        if fl not in flavours:
+            continue
         for k in range(0, len(sub), chunk):
             jobs.append((fl, sub[k:k + chunk], k))
 
